@@ -16,7 +16,7 @@ func init() { registry["C17"] = propC17 }
 func propC17() *Property {
 	return &Property{
 		ID:          "C17",
-		Explanation: "Static guard and shape rules on package object. Decided: (R1) every conversion from a floating-point to an integer type in the module is dominated by a lower and an upper range test on the converted value (Go leaves out-of-range results implementation-defined) and, in GetNumber, by the integrality test; (R2) package object cannot panic: every type assertion is comma-ok, there is no indexing, slicing, map write or explicit panic; (R3) the non-error result of GetString is the result of ansi.Scrub and known non-empty, the empty case returns the 'absent' sentinel, and GetTime/GetURL/GetMediaType/GetMarkup obtain their text only through GetString; (R4) getPrimitive returns 'absent' (wrapping ErrKeyNotPresent) exactly on the missing-key/null edges, 'wrong type' on the failed-assertion edge and the asserted value itself on success; no other error wraps the 'absent' sentinel; no accessor returns a non-nil error together with a non-zero value; (R5) GetList returns the list itself or a one-element literal holding the value. (R4, addition) the document map is read (index, range) only inside getPrimitive; (R6) the sanitiser behind GetString is total (same rule as C01.R4); (R7) pointer-valued accessors return a non-nil value whenever they return a nil error, through their helpers; (R8) what GetNumber returns next to a nil error is the uint64 conversion of the very float64 it took out of the document (not a value that went through text, another float width or arithmetic). (R10) the pattern behind mime.Parse is parsed and the character class of each of its two name groups is, as a set, exactly the token characters of RFC 9110. Not decided: time.Parse, url.Parse, the media-type regexp, encoding/json's number decoding, and the exact numeric value preserved by the conversion (value semantics).",
+		Explanation: "Static guard and shape rules on package object. Decided: (R1) every conversion from a floating-point to an integer type in the module is dominated by a lower and an upper range test on the converted value (Go leaves out-of-range results implementation-defined) and, in GetNumber, by the integrality test; (R2) package object cannot panic: every type assertion is comma-ok, there is no indexing, slicing, map write or explicit panic; (R3) the non-error result of GetString is the result of ansi.Scrub and known non-empty, the empty case returns the 'absent' sentinel, and GetTime/GetURL/GetMediaType/GetMarkup obtain their text only through GetString; (R4) getPrimitive returns 'absent' (wrapping ErrKeyNotPresent) exactly on the missing-key/null edges, 'wrong type' on the failed-assertion edge and the asserted value itself on success; no other error wraps the 'absent' sentinel; no accessor returns a non-nil error together with a non-zero value; (R5) GetList returns the list itself or a one-element literal holding the value. (R4, addition) the document map is read (index, range) only inside getPrimitive; (R6) the sanitiser behind GetString is total (same rule as C01.R4); (R7) pointer-valued accessors return a non-nil value whenever they return a nil error, through their helpers; (R8) what GetNumber returns next to a nil error is the uint64 conversion of the very float64 it took out of the document (not a value that went through text, another float width or arithmetic). (R10) the pattern behind mime.Parse is parsed and the character class of each of its two name groups is, as a set, exactly the token characters of RFC 9110. (R11) packages object and mime read no environment, clock or local time zone. Not decided: time.Parse, url.Parse, the media-type regexp, encoding/json's number decoding, and the exact numeric value preserved by the conversion (value semantics).",
 		Assumptions: []string{"encoding/json decodes numbers into float64, arrays into []any, objects into map[string]any"},
 		Rules: []Rule{
 			{ID: "C17.R1", Title: "float→integer conversions are range-guarded", Floor: 3, Run: c17R1},
@@ -26,6 +26,7 @@ func propC17() *Property {
 			{ID: "C17.R5", Title: "single values are promoted to one-element lists", Floor: 1, Run: c17R5},
 			{ID: "C17.R6", Title: "the sanitiser behind GetString filters every rune on every path", Floor: 1, Run: scrubIsTotal},
 			{ID: "C17.R7", Title: "an accessor that reports no error hands out a usable value", Floor: 2, Run: c17R7},
+			{ID: "C17.R11", Title: "what an accessor returns depends on the document alone: packages object and mime read no environment, clock or local time zone", Floor: 0, Run: c17R11},
 			{ID: "C17.R10", Title: "a media type is two RFC 9110 tokens around a slash: the character classes of the pattern behind mime.Parse are exactly the token characters", Floor: 2, Run: c17R10},
 			{ID: "C17.R9", Title: "what an accessor returns depends on the document alone: the accessors and what they call keep no state between calls (same instances as C08.R6)", Floor: 28, Run: c08R6},
 			{ID: "C17.R8", Title: "the number GetNumber hands out is the conversion of the document's own double", Floor: 1, Run: c17R8},
@@ -913,3 +914,5 @@ func sortStrings(xs []string) {
 		}
 	}
 }
+
+func c17R11(c *Ctx) { envRule(c, "what an accessor returns", "servitor/object", "servitor/mime") }
